@@ -35,6 +35,12 @@ struct AsyncClientInner {
     /// was dropped mid-write, or the write failed): part of a frame may be on
     /// the wire, so nothing more may be written on this connection.
     write_broken: AtomicBool,
+    /// Set by the response loop, before it fails the calls in flight, when the
+    /// connection is gone (closed, reset, or a malformed frame arrived);
+    /// `closed_notify` wakes writers that are waiting for the writer or parked in
+    /// a write, which must not outlive the connection.
+    closed: AtomicBool,
+    closed_notify: tokio::sync::Notify,
 }
 
 /// Marks the connection unusable for writing unless disarmed. Armed across a
@@ -128,6 +134,8 @@ impl AsyncClient {
             next_id: AtomicU64::new(1),
             shutdown: StdMutex::new(Some(shutdown_tx)),
             write_broken: AtomicBool::new(false),
+            closed: AtomicBool::new(false),
+            closed_notify: tokio::sync::Notify::new(),
         });
 
         spawn_response_loop(
@@ -684,7 +692,19 @@ impl AsyncClient {
     }
 
     async fn write_request(&self, msg: &Message) -> Result<(), RepeError> {
-        let mut writer = self.inner.writer.lock().await;
+        // Once the response loop has given the connection up, a write must not wait
+        // for the writer or stay parked in it: on a peer that stopped reading it
+        // would hold the writer, and every caller queued behind it, indefinitely.
+        let closed = self.inner.closed_notify.notified();
+        tokio::pin!(closed);
+        closed.as_mut().enable();
+        if self.inner.closed.load(Ordering::Acquire) {
+            return Err(connection_closed_error());
+        }
+        let mut writer = tokio::select! {
+            guard = self.inner.writer.lock() => guard,
+            _ = &mut closed => return Err(connection_closed_error()),
+        };
         if self.inner.write_broken.load(Ordering::Acquire) {
             // An earlier request was abandoned mid-write. Appending this frame
             // would make the peer read it as the rest of the torn one; close the
@@ -699,8 +719,15 @@ impl AsyncClient {
             broken: &self.inner.write_broken,
             armed: true,
         };
-        write_message_async(&mut *writer, msg).await?;
-        writer.flush().await?;
+        tokio::select! {
+            written = async {
+                write_message_async(&mut *writer, msg).await?;
+                writer.flush().await?;
+                Ok::<(), RepeError>(())
+            } => written?,
+            // `guard` stays armed: part of the frame may be on the wire.
+            _ = &mut closed => return Err(connection_closed_error()),
+        }
         guard.armed = false;
         #[cfg(feature = "verif-hooks")]
         {
@@ -920,10 +947,11 @@ async fn fail_all_pending(inner: &std::sync::Weak<AsyncClientInner>, err: RepeEr
         return;
     };
 
-    {
-        let mut writer = inner_ref.writer.lock().await;
-        let _ = writer.shutdown().await;
-    }
+    // Tell writers first, then fail the calls in flight, and only then take the
+    // writer to close the sending side: a write parked on a peer that stopped
+    // reading holds the writer, and the calls in flight must not wait for it.
+    inner_ref.closed.store(true, Ordering::Release);
+    inner_ref.closed_notify.notify_waiters();
 
     let waiters = {
         let mut pending = lock_pending_map(&inner_ref.pending);
@@ -933,6 +961,16 @@ async fn fail_all_pending(inner: &std::sync::Weak<AsyncClientInner>, err: RepeEr
     for (request_id, sender) in waiters {
         let _ = sender.send(Err(clone_fatal_error_for_waiter(&err, request_id)));
     }
+
+    let mut writer = inner_ref.writer.lock().await;
+    let _ = writer.shutdown().await;
+}
+
+fn connection_closed_error() -> RepeError {
+    RepeError::Io(std::io::Error::new(
+        ErrorKind::BrokenPipe,
+        "connection closed",
+    ))
 }
 
 fn clone_fatal_error_for_waiter(err: &RepeError, request_id: u64) -> RepeError {
